@@ -170,3 +170,28 @@ func (v *VerifConnMgr) VerifConnMgrDump() (lists map[netip.Addr][]*HostInfo, idx
 	v.HS.RUnlock()
 	return
 }
+
+// VerifRelayUsed returns the relay indexes currently marked as used.
+func (v *VerifConnMgr) VerifRelayUsed() []uint32 {
+	v.CM.relayUsedLock.RLock()
+	defer v.CM.relayUsedLock.RUnlock()
+	out := []uint32{}
+	for i := range v.CM.relayUsed {
+		out = append(out, i)
+	}
+	return out
+}
+
+// VerifMarkRelayUsed is what the packet path does for a relayed packet.
+func (v *VerifConnMgr) VerifMarkRelayUsed(idx uint32) { v.CM.RelayUsed(idx) }
+
+// VerifRelays returns a copy of HostMap.Relays.
+func (v *VerifConnMgr) VerifRelays() map[uint32]*HostInfo {
+	v.Main.RLock()
+	defer v.Main.RUnlock()
+	out := map[uint32]*HostInfo{}
+	for i, h := range v.Main.Relays {
+		out[i] = h
+	}
+	return out
+}
